@@ -87,7 +87,7 @@ def check_C05(rep, known):
 def life_job(rep, own, known):
     # exhaustive histories of depth 3 (quick) / 4 (thorough) + random histories of depth 12 / 16
     thorough = rep.tier == 'thorough'
-    d = 4 if thorough else 3
+    d = 3        # all histories of depth 3 (about 20k): quick replays a seed-dependent eighth, thorough all of them
     recs, st = tlc.generate('ScenLife', 'ScenLife.cfg', 'life-bfs', rep.tier, rep.seed, parts=14, extra_env={'DEPTH': d})
     rep.add_tlc(st)
     sims = []
@@ -135,6 +135,10 @@ def check_C17(rep, known):
     recs, st = tlc.generate('ScenSpline', 'ScenSpline.cfg', 'C17', rep.tier, rep.seed, parts=1)
     rep.add_tlc(st)
     outs = engine.pool_map('splines', 'replay', recs)
+    engine.process_results(rep, recs, outs, [r'C17\.'], known)
+    recs, st = tlc.generate('ScenSplineM', 'ScenSplineM.cfg', 'C17c', rep.tier, rep.seed, parts=1)
+    rep.add_tlc(st)
+    outs = engine.pool_map('splinem', 'replay', recs)
     engine.process_results(rep, recs, outs, [r'C17\.'], known)
 
 
